@@ -8,7 +8,7 @@ import threading
 import time
 
 from .. import common, lin, observe, probe
-from ..sched import Recorder, Sched
+from ..sched import Recorder, Sched, code_objects
 
 PROP = 'C05'
 LEVEL = 'exploration'
@@ -19,8 +19,8 @@ RULE = ('mode A: small concurrent programs (2-4 clients x 2-5 calls over 1-3 key
         'of the same key. mode B: free-running threads and OS processes with injected gate delays, per-key check. '
         'evaluations = histories checked; distinct_nontrivial = distinct schedule traces that contained at least one '
         'preemption inside an operation (mode A) plus free runs with overlapping operation pairs (mode B)')
-DISTINCT = ('schedules_with_preemption_in_op', 'free_runs_with_overlap')
-REQUIRED = ('calls_joining_an_enclosing_transaction', 'schedules_with_rollbacks_of_waiting_calls', 'histories_checked', 'schedules_shared_object', 'schedules_separate_objects', 'lock_waits_observed',
+DISTINCT = ('shared_object_schedules', 'schedules_with_preemption_in_op', 'free_runs_with_overlap')
+REQUIRED = ('shared_object_programs', 'shared_object_schedules_judged', 'schedules_interleaved_at_statement_level', 'statement_level_gates_passed', 'calls_joining_an_enclosing_transaction', 'schedules_with_rollbacks_of_waiting_calls', 'histories_checked', 'schedules_shared_object', 'schedules_separate_objects', 'lock_waits_observed',
             'file_backed_values', 'free_runs_threads', 'free_runs_processes', 'lru_stat_schedules', 'expired_present_keys',
             'handles_opened_during_schedules', 'partly_consumed_iterations', 'timeouts_under_commit_contention')
 ASSUMPTIONS = ('threads are interleaved at SQL-statement and value-file-operation granularity (where diskcache\'s '
@@ -259,6 +259,22 @@ def mode_a(dc, sc, res, rng, tier, label, variant):
                     ops[j] = ('incr', (k, 1), {})
         prog = [[o for o in ops if o[0] not in ('iter_open', 'iter_rest')] for ops in prog]
         res.count('schedules_with_rollbacks_of_waiting_calls')
+    line_codes = None
+    if variant == 'lines':
+        # statement-level interleaving of threads that share ONE Cache object: every statement of the Cache class is a
+        # scheduling point (sys.monitoring), so what the object keeps in attributes between two statements is exposed
+        # to the other threads' calls; calls that read such state back (len, counters) are frequent here
+        shared = True
+        line_codes = code_objects(dc.Cache)
+        for ci, ops in enumerate(prog):
+            for j in range(len(ops)):
+                r = rng.random()
+                if r < 0.3:
+                    ops[j] = ('len', (), {})
+                elif r < 0.4:
+                    ops[j] = ('contains', (rng.choice(keys),), {})
+        prog = [[o for o in ops if o[0] not in ('iter_open', 'iter_rest')] for ops in prog]
+        res.count('schedules_interleaved_at_statement_level')
     if variant == 'lru':
         settings['eviction_policy'] = rng.choice(['least-recently-used', 'least-frequently-used'])
         settings['statistics'] = rng.random() < 0.5
@@ -284,7 +300,19 @@ def mode_a(dc, sc, res, rng, tier, label, variant):
     res.count('calls_joining_an_enclosing_transaction', len(enclosed))
     strategy = rng.choice(['random', 'random', 'preempt', 'preempt', 'roundrobin', 'ops', 'ops'])
     pts = {rng.randrange(0, 120) for _ in range(rng.randrange(1, 4))}
-    sch = Sched(rng, clock, strategy=strategy, preempt_points=pts)
+    if line_codes:
+        strategy = rng.choice(['random', 'preempt', 'preempt'])
+        pts = {rng.randrange(0, 2500) for _ in range(rng.randrange(2, 7))}
+        # either every statement is a gate, or only those that store an attribute (and the one after each): fewer gates,
+        # so that random scheduling reaches the few interleavings that matter with a useful probability
+        only_stores = rng.random() < 0.6
+        if only_stores:
+            strategy = 'random'
+        res.count('schedules_gated_at_attribute_stores' if only_stores else 'schedules_gated_at_every_statement')
+        sch = Sched(rng, clock, strategy=strategy, preempt_points=pts, max_steps=150000, line_codes=line_codes,
+                    only_stores=only_stores)
+    else:
+        sch = Sched(rng, clock, strategy=strategy, preempt_points=pts)
     rec = Recorder(sch)
 
     def client(ci):
@@ -325,6 +353,7 @@ def mode_a(dc, sc, res, rng, tier, label, variant):
         if variant == 'lru':
             res.count('lru_stat_schedules')
         res.count('lock_waits_observed', sch.lock_waits)
+        res.count('statement_level_gates_passed', sch.line_events)
         for ops in prog:
             for op, args, kw in ops:
                 if op in ('set', 'add', 'setitem') and isinstance(args[1], str) and len(args[1]) >= T:
@@ -622,6 +651,100 @@ def commit_contention(dc, sc, res, rng, label):
     sc.drop(d)
 
 
+# ---------------------- mode D: one shared Cache object, statement-level change points enumerated (preemption bound 2)
+SHARED_OPS = [('set', ('a', 'S1'), {}), ('set', ('a', 'S2' * 40), {}), ('add', ('a', 'A1'), {}), ('incr', ('n', 1), {}),
+              ('pop', ('a', 'MISS'), {}), ('delete', ('a',), {}), ('len', (), {}), ('len', (), {}), ('contains', ('a',), {}),
+              ('get', ('a', 'MISS'), {}), ('touch', ('a',), {}), ('delitem', ('never-stored',), {})]
+
+
+def shared_object_plans(dc, sc, res, rng, label, prog, init, budget, part=(0, 1)):
+    """Two threads share ONE Cache object.  Gates: SQL statements, file operations and every statement of the Cache
+    class that stores an attribute (plus the statement after it) - the places where a thread publishes state on the
+    shared object.  The thread that runs keeps running; control changes hands only at planned statement gates.  All plans
+    with at most two change points are run (or `budget` of them, sampled): a bounded-exhaustive exploration of how the two
+    threads can interleave around the object's in-memory state.  Every schedule is judged like any other C05 history."""
+    codes = code_objects(dc.Cache)
+    d = sc.new()
+    keys = ['a', 'n']
+    seen = set()
+    try:
+        cache = dc.Cache(d, disk_min_file_size=T, timeout=0)
+
+        def run(plan, start):
+            cache.clear()
+            for k, v in init.items():
+                cache.set(k, v)
+            clock = probe.set_clock(probe.VClock())
+            sch = Sched(rng, clock, strategy='plan', max_steps=20000, line_codes=codes, only_stores=True)
+            sch.plan, sch.start = plan, start
+            rec = Recorder(sch)
+
+            def client(ci):
+                def body():
+                    for op, args, kw in prog[ci]:
+                        rec.call(ci, op, args, lambda: do_op(cache, op, args, kw), kw)
+                return body
+            completed = sch.run([client(0), client(1)])
+            probe.set_controller(None)
+            extra = {'shared_object': True, 'program': prog, 'init': init, 'change_points': sorted(plan.items()),
+                     'first_client': start, 'statement_gates': sch.line_count, 'trace_hash': sch.trace_hash()}
+            errs = sch.errors()
+            if errs:
+                res.violation('client thread died: %s' % (errs[0][1][1][-400:],), dict(extra, label=label))
+                return None
+            if not completed:
+                res.count('schedules_hit_step_cap')
+                return sch.line_count
+            h = sch.trace_hash()
+            if h in seen:
+                return sch.line_count
+            seen.add(h)
+            res.seen('shared_object_schedules', h)
+            res.count('shared_object_schedules_judged')
+            res.count('statement_level_gates_passed', sch.line_events)
+            ops = list(rec.ops)
+            t = sch.tick + 10
+            fresh = dc.Cache(d)
+            try:
+                for k in keys:
+                    ops.append({'client': 99, 'op': 'get', 'args': (k, 'MISS'), 'kw': {}, 'call': t, 'ret': t + 1,
+                                'kind': 'ok', 'result': fresh.get(k, 'MISS')})
+                    t += 2
+                ops.append({'client': 99, 'op': 'len', 'args': (), 'kw': {}, 'call': t, 'ret': t + 1, 'kind': 'ok',
+                            'result': len(fresh)})
+            finally:
+                fresh.close()
+            if not judge_history(res, ops, init, label, keys, extra):
+                return None
+            return sch.line_count
+
+        plans = []
+        for start in (0, 1):
+            n = run({}, start)
+            if n is None:
+                return
+            other = 1 - start
+            plans += [({a: other}, start) for a in range(1, n + 3)]
+            plans += [({a: other, b: start}, start) for a in range(1, n + 3) for b in range(a + 1, n + 6)]
+        plans = plans[part[0]::part[1]]          # (the plans of one program may be divided among several workers)
+        if len(plans) > budget:
+            plans = rng.sample(plans, budget)
+            res.count('shared_object_programs_sampled')
+        else:
+            res.count('shared_object_programs_exhausted_to_bound_2')
+        for plan, start in plans:
+            if run(plan, start) is None:
+                return
+        res.count('shared_object_programs')
+    finally:
+        probe.set_controller(None)
+        try:
+            cache.close()
+        except Exception:      # noqa: BLE001
+            pass
+        sc.drop(d)
+
+
 def run_shard(tier, seed, shard, nshards, res):
     dc = common.use_repo()
     probe.install()
@@ -629,8 +752,30 @@ def run_shard(tier, seed, shard, nshards, res):
     with common.Scratch() as sc:
         for i in range(n_a):
             rng = common.rng_for(seed, 'c05a', shard, i)
-            variant = 'lru' if i % 5 == 4 else 'expired' if i % 5 == 2 else 'rollbacks' if i % 5 == 3 else 'plain'
+            variant = 'lru' if i % 5 == 4 else 'expired' if i % 5 == 2 else 'rollbacks' if i % 5 == 3 else 'lines' if i % 5 == 1 else 'plain'
             mode_a(dc, sc, res, rng, tier, 'c05 A seed=%d shard=%d i=%d' % (seed, shard, i), variant)
+            if res.counters.get('violations_raw', 0) > 5:
+                return
+        # mode D: programs are taken in rotation from all (2 calls | 1 call) combinations of the pool, so that repeated
+        # runs (other seeds, the thorough tier) walk through all of them
+        combos = [(a, b, c) for a in range(len(SHARED_OPS)) for b in range(len(SHARED_OPS)) for c in range(len(SHARED_OPS))]
+        # quick tier: four designated programs (a write, then a call that reads the object's counters | the same kind of
+        # call in the other thread), each explored exhaustively to the bound by four workers that share its plans, plus
+        # one program from the rotation, sampled; thorough tier: twenty more programs per worker, exhaustively
+        n_d = 2 if tier == 'quick' else 21
+        for i in range(n_d):
+            rng = common.rng_for(seed, 'c05d', shard, i)
+            a, b, c = combos[(seed * 7919 + (shard * n_d + i) * 131) % len(combos)]
+            part, budget = (0, 1), (120 if tier == 'quick' else 4000)
+            init = {} if rng.random() < 0.5 else {'a': 'I0' * 40, 'n': 5}
+            if i == 0:
+                a, b, c = [(0, 6, 6), (3, 6, 6), (4, 6, 8), (2, 6, 9)][shard % 4]
+                part, budget = (shard // 4 % 4, 4), 4000
+                init = {} if (seed + shard) % 2 == 0 else {'a': 'I0' * 40, 'n': 5}
+                rng = common.rng_for(seed, 'c05d', shard % 4, i)
+            prog = [[SHARED_OPS[a], SHARED_OPS[b]], [SHARED_OPS[c]]]
+            shared_object_plans(dc, sc, res, rng, 'c05 D seed=%d shard=%d i=%d' % (seed, shard, i), prog, init,
+                                budget=budget, part=part)
             if res.counters.get('violations_raw', 0) > 5:
                 return
         probe.reset()
